@@ -24,6 +24,10 @@ type crCase struct {
 	Frag    []int     `json:"frag,omitempty"`    // fragmentation of the source
 	FailPos int       `json:"failPos,omitempty"` // the source fails after delivering this many bytes (0 = never, -1 = at once)
 	Reapply bool      `json:"reapply,omitempty"` // apply the options a second time (Apply resets first)
+	// Prelude: before the judged stream, the same object compresses PreLen bytes with block size code
+	// PreCode completely, and is then Reset and re-configured (reuse of the encoder instance)
+	PreCode int `json:"preCode,omitempty"`
+	PreLen  int `json:"preLen,omitempty"`
 }
 
 // failingSource delivers data[:failPos] (with fragmentation) and then fails.
@@ -85,6 +89,13 @@ func crRun(args []string) error {
 			}()
 			src := &failingSource{fragReader: fragReader{data: input, pattern: c.Frag}, failPos: c.FailPos}
 			zr := lz4.NewCompressingReader(src)
+			if c.PreCode != 0 {
+				pre := &failingSource{fragReader: fragReader{data: bytes.Repeat([]byte("prelude "), c.PreLen/8+1)[:c.PreLen]}}
+				zr = lz4.NewCompressingReader(pre)
+				_ = zr.Apply(lz4.BlockSizeOption(blockSizeOf(c.PreCode)))
+				_, _ = io.Copy(io.Discard, zr)
+				zr.Reset(src)
+			}
 			var opts []lz4.Option
 			if c.Opts.Code != 0 {
 				opts = append(opts, lz4.BlockSizeOption(blockSizeOf(c.Opts.Code)))
